@@ -1,44 +1,48 @@
-import CkbVerif.Lemmas.Reorg
+import CkbVerif.Lemmas.ReorgStage
 
 /-!
 # C12 — after any reorg the pool agrees with the new chain
 
-Theorems about `Reorg.update` = `_update_tx_pool_for_reorg` restricted to the entries pooled before
-the change (`Model/Reorg.lean`), for ALL pools, attached transaction lists, detached header /
-proposal sets and proposal views:
+Theorems about the write-locked section of `update_tx_pool_for_reorg` (`Model/Reorg.lean`):
+`update` = `_update_tx_pool_for_reorg` up to `remove_expired`, `updateL` = … with `limit_size`,
+`reorg` = … followed by `readd_detached_tx`; links (parents/children, `calc_descendants`) are DERIVED
+from the entries' inputs / cell deps / outputs, the chain side is the live-cell set before the change
+and the detached / attached transactions (`newLive`, `retain`). All statements are for ALL pools and
+ALL arguments (attached / detached transaction lists, detached headers and proposals, proposal view,
+expired ids, eviction preference, limits); hypotheses are stated where a clause needs one.
 
-* `no_committed_in_pool`      no surviving entry is one of the attached (committed) transactions;
-* `no_detached_header_dep`    no surviving entry has a header dep among the detached headers;
-* `update_only_drops_or_restages`  every surviving entry is an entry of the old pool (same id,
-                              inputs, deps, header deps): the update never invents or alters one;
-* `stage_of_pending_matches_window`  an entry that is pending when the stage moves run ends up
-                              exactly at the stage the new proposal view gives its id.
+Clauses of the property:
 
-* `no_expired_in_pool`        no surviving entry is one of the expired ids (repaired `remove_expired`);
-* `first_expired_descendants_removed`  the descendants (as `calc_descendants` sees them when the
-                              removal runs) of the first expired id are gone too; pre-fix witness
-                              `expired_parent_keeps_child_preF5` (F5, /repo 3724ae4).
+* NoCommittedPooled   `no_committed_in_pool`, `no_committed_in_pool_after_reorg`, `no_committed_pooled_step`
+                      (invariant form: nothing committed on the old chain pooled ⇒ nothing committed on the new);
+* NoConflict          `no_conflict_with_attached` (+ `_after_limit`, `no_conflict_after_reorg`): no survivor spends
+                      or has as a cell dep an out-point consumed by an attached transaction (needs C11's
+                      "no double spend in the pool"); the seeded variant m1 violates it:
+                      `m1_skip_violates_no_conflict`, `m1_skip_violates_inputs_resolvable`;
+* InputsResolvable    `inputs_resolvable_up_to_detached` (strongest true form: live on the new chain, or created
+                      in the pool, or an output of a DETACHED transaction), `inputs_resolvable_on_extension`
+                      (full clause when nothing is detached), `expiry_limit_readd_keep_inputs_resolvable`;
+                      negation witnesses for the gap: `child_of_unreadmitted_parent_survives(_reorg)`
+                      (known finding `input-of-detached-parent-not-readmitted`), `expired_parent_keeps_child_preF5`;
+* header deps         `no_detached_header_dep`, `no_detached_header_dep_after_reorg`;
+* no lost tx          `detached_admissible_tx_is_back`, `readd_later_independent_tx_is_back`,
+                      `reorg_adds_only_admissible_detached`, `readd_keeps_entries`, `readd_conflicting_tx_not_back`;
+* stage = window      `stage_of_pending_matches_window`, `stage_matches_window_partial` (strongest true form: at the
+                      window's stage, or a gap entry outside both parts of the window); negation witness
+                      `gap_stuck_outside_window` (known finding `stage-gap-outside-window`);
+* expiry / size       `no_expired_in_pool`, `first_expired_descendants_removed`, `limit_size_under_limit`,
+                      `limit_size_only_removes`;
+* structure           `update_only_drops_or_restages`, `descendants_are_reachable_children`,
+                      `removal_closed_under_links`, `chain_live_cell_stays_live`, `chain_attached_output_is_live`.
 
-NOT theorems — false for the code as written, with `decide`d witnesses that the harness also
-observes on the real node (findings, see the final report):
-
-* `gap_stuck_outside_window` (stage_matches_window fails): an entry in stage gap whose proposal sat
-  in the *gap* part of the abandoned branch is in neither `detached_proposal_id` (= old proposed set
-  \ new proposed set; the gap set is not consulted) nor the new view, and stays `Gap`; since
-  `get_proposals` offers only `Pending` entries, this node never proposes it again.
-* `child_of_unreadmitted_parent_survives` (no_dead_or_unknown_input fails): nothing removes a pooled
-  transaction whose parent was committed on the abandoned branch and cannot be re-admitted (e.g.
-  its header dep was detached, or a conflicting transaction is committed on the new branch).
-
-Not modelled: `readd_detached_tx`, `limit_size`, concurrent submissions (`submit_entry`'s re-check);
-`no_conflict_with_attached` (no survivor spends an input of an attached tx) is only checked by the
-oracle (it needs C11's "pool inputs are unique" invariant).
+Not covered by theorems: `check_and_record_ancestors`'s eviction of cell-ref parents during a re-add
+(modelled as a refusal), RBF, the victim order of `limit_size` (any order), the async schedule.
 -/
 
 namespace CkbVerif.C12
 open CkbVerif.Reorg
 
-theorem foldl_removeCommitted_no_id (l : List Tx) (p : Pool) :
+theorem foldl_removeCommitted_no_id (l : List CTx) (p : Pool) :
     ∀ tx ∈ l, ∀ e ∈ l.foldl removeCommitted p, e.id ≠ tx.id := by
   induction l generalizing p with
   | nil => intro tx h; simp at h
@@ -73,8 +77,8 @@ theorem no_detached_header_dep (p : Pool) (a : Args) :
   let p1 := a.attached.foldl removeCommitted p
   have hsub : Sub (update p a) (resolveHeaderDeps p1 a.detachedHeaders) := by
     unfold update; exact sub_update_tail a _
-  obtain ⟨e2, he2, i1, _, _, i4⟩ := hsub e he
-  obtain ⟨e1, he1, j1, _, _, j4⟩ := sub_resolveHeaderDeps p1 a.detachedHeaders e2 he2
+  obtain ⟨e2, he2, i1, _, _, i4, _⟩ := hsub e he
+  obtain ⟨e1, he1, j1, _, _, j4, _⟩ := sub_resolveHeaderDeps p1 a.detachedHeaders e2 he2
   have hoff : e1 ∈ p1.filter (fun x => x.hdeps.any a.detachedHeaders.contains) := by
     apply List.mem_filter.mpr
     refine ⟨he1, ?_⟩
@@ -84,10 +88,6 @@ theorem no_detached_header_dep (p : Pool) (a : Args) :
   apply hclear
   rw [j1]
   exact List.mem_map_of_mem hoff
-
-/-- the stage the new proposal view gives an id -/
-def windowStage (a : Args) (id : Nat) : Nat :=
-  if a.proposed.contains id then 2 else if a.gap.contains id then 1 else 0
 
 /-- a pending entry is moved to exactly the stage of the new window -/
 theorem stage_of_pending_matches_window (a : Args) (e : PEnt) (h : e.status = 0) :
@@ -101,17 +101,18 @@ theorem stage_of_pending_matches_window (a : Args) (e : PEnt) (h : e.status = 0)
 /-! ## concrete histories -/
 
 def pool1 : Pool :=
-  [ ⟨1, 2, [10], [], [], [2]⟩,      -- proposed, parent of 2
-    ⟨2, 1, [16], [], [], []⟩,       -- gap, spends 1's output
-    ⟨3, 0, [11], [], [7], []⟩,      -- pending, header dep on block 7
-    ⟨4, 0, [12], [], [], []⟩ ]      -- pending
+  [ ⟨1, 2, [10], [], [], [16], 0⟩,      -- proposed, parent of 2
+    ⟨2, 1, [16], [], [], [32], 0⟩,      -- gap, spends 1's output
+    ⟨3, 0, [11], [], [7], [48], 0⟩,     -- pending, header dep on block 7
+    ⟨4, 0, [12], [], [], [64], 0⟩ ]     -- pending
 
 /-- non-vacuity: tx 1 is committed, block 7 is detached, 4 becomes proposed; 2 moves on to proposed -/
-example : update pool1 ⟨[⟨1, [10]⟩], [7], [], [], [2, 4], []⟩ = [⟨2, 2, [16], [], [], []⟩, ⟨4, 2, [12], [], [], []⟩] := by
+example : update pool1 { attached := [{ id := 1, spent := [10], outs := [16] }], detachedHeaders := [7], detachedProposals := [], gap := [], proposed := [2, 4], expired := [] }
+    = [⟨2, 2, [16], [], [], [32], 0⟩, ⟨4, 2, [12], [], [], [64], 0⟩] := by
   decide
 
 /-- a conflicting transaction (id 9, not pooled) spending out-point 10 is committed: 1 and its descendant 2 go -/
-example : (update pool1 ⟨[⟨9, [10]⟩], [], [], [], [], []⟩).map (·.id) = [3, 4] := by decide
+example : (update pool1 { attached := [{ id := 9, spent := [10] }], detachedHeaders := [], detachedProposals := [], gap := [], proposed := [], expired := [] }).map (·.id) = [3, 4] := by decide
 
 /-- repaired `remove_expired` (3724ae4): no expired id survives the update -/
 theorem no_expired_in_pool (p : Pool) (a : Args) : ∀ e ∈ update p a, e.id ∉ a.expired := by
@@ -136,25 +137,375 @@ theorem first_expired_descendants_removed (p : Pool) (a : Args) (x : Nat) (xs : 
   exact removeWithDesc_no_desc p4 x e0 he0 (hid ▸ hd)
 
 /-- non-vacuity: parent 1 (expired) with pooled child 2: both go, 3 stays -/
-example : (update [⟨1, 0, [10], [], [], [2]⟩, ⟨2, 0, [16], [], [], []⟩, ⟨3, 0, [11], [], [], []⟩]
-    ⟨[], [], [], [], [], [1]⟩).map (·.id) = [3] := by decide
+example : (update [⟨1, 0, [10], [], [], [16], 0⟩, ⟨2, 0, [16], [], [], [32], 0⟩, ⟨3, 0, [11], [], [], [48], 0⟩]
+    { attached := [], detachedHeaders := [], detachedProposals := [], gap := [], proposed := [], expired := [1] }).map (·.id) = [3] := by decide
 
 /-- F5 as it was before /repo 3724ae4: the expired parent 1 went alone, its child 2 (spending 1's
     output 16) stayed pooled with an unknown input -/
 theorem expired_parent_keeps_child_preF5 :
-    (updatePreF5 [⟨1, 0, [10], [], [], [2]⟩, ⟨2, 0, [16], [], [], []⟩] ⟨[], [], [], [], [], [1]⟩).map (·.id) = [2] := by
+    (updatePreF5 [⟨1, 0, [10], [], [], [16], 0⟩, ⟨2, 0, [16], [], [], [32], 0⟩]
+      { attached := [], detachedHeaders := [], detachedProposals := [], gap := [], proposed := [], expired := [1] }).map (·.id) = [2] := by
   decide
 
 /-- FINDING (stage): entry 2 is in stage gap; after a reorg its proposal is neither in the detached
     proposals (computed from the old *proposed* set only) nor anywhere in the new view — it stays gap -/
 theorem gap_stuck_outside_window :
-    let a : Args := ⟨[], [5, 6], [], [], [], []⟩
-    (update [⟨2, 1, [16], [], [], []⟩] a).map (fun e => (e.id, e.status)) = [(2, 1)] ∧
+    let a : Args := { attached := [], detachedHeaders := [5, 6], detachedProposals := [], gap := [], proposed := [], expired := [] }
+    (update [⟨2, 1, [16], [], [], [32], 0⟩] a).map (fun e => (e.id, e.status)) = [(2, 1)] ∧
     windowStage a 2 = 0 := by decide
 
 /-- FINDING (unknown input): 2 spends out-point 16 = output 0 of tx 1, which was committed on the
     abandoned branch and is not re-admitted; no rule of the update touches 2 -/
 theorem child_of_unreadmitted_parent_survives :
-    (update [⟨2, 0, [16], [], [], []⟩] ⟨[], [5, 6], [], [], [], []⟩).map (·.id) = [2] := by decide
+    (update [⟨2, 0, [16], [], [], [32], 0⟩]
+      { attached := [], detachedHeaders := [5, 6], detachedProposals := [], gap := [], proposed := [], expired := [] }).map (·.id) = [2] := by decide
+
+
+/-! ## the chain side -/
+
+/-- a cell that was live at the old tip is live at the new tip unless a detached transaction created
+    it or an attached transaction consumed it -/
+theorem chain_live_cell_stays_live (a : Args) (o : Nat) (ho : o ∈ a.live) (hd : ∀ d ∈ a.detached, o ∉ d.outs)
+    (hs : ∀ y ∈ a.attached, o ∉ y.spent) : o ∈ newLive a := live_stays ho hd hs
+
+/-- an output of an attached transaction is live at the new tip unless an attached transaction consumed it -/
+theorem chain_attached_output_is_live (a : Args) (y : CTx) (o : Nat) (hy : y ∈ a.attached) (ho : o ∈ y.outs)
+    (hs : ∀ y ∈ a.attached, o ∉ y.spent) : o ∈ newLive a := attached_outs_live hy ho hs
+
+/-- non-vacuity: tx 1 (spends 10, creates 16) is un-committed, tx 9 (spends 10, creates 90) is committed -/
+example : newLive { attached := [{ id := 9, spent := [10], outs := [90] }], detachedHeaders := [], detachedProposals := [], gap := [], proposed := [], expired := [], detached := [{ id := 1, spent := [10], outs := [16] }], live := [16, 11] } = [11, 90] := by decide
+
+/-! ## links are derived: what `remove_entry_and_descendants` removes -/
+
+/-- `calc_descendants` over the derived links = everything reachable from a link child (a pooled
+    transaction that spends or depends on an output of the entry, or spends a cell it depends on) -/
+theorem descendants_are_reachable_children (p : Pool) (id y : Nat) :
+    y ∈ descOf p id ↔ ∃ c ∈ childIds p id, CkbVerif.Pool.RT (childIds p) c y := mem_descOf p id y
+
+/-- `remove_entry_and_descendants` is closed under links: if an entry goes, every pooled entry that
+    spends or depends on one of its outputs, or spends one of its dep cells, goes too -/
+theorem removal_closed_under_links (p : Pool) (id : Nat) (e c : PEnt) (he : e ∈ p) (hc : c ∈ p)
+    (hgone : e ∉ removeWithDesc p id) (hch : isChild e c = true) : c ∉ removeWithDesc p id := by
+  intro hcin
+  have hg : Gone p id e.id := by
+    by_cases h : Gone p id e.id
+    · exact h
+    · exact absurd (mem_removeWithDesc.mpr ⟨he, h⟩) hgone
+  exact (mem_removeWithDesc.mp hcin).2 (gone_child he hc hg hch)
+
+/-- non-vacuity: B (id 1) depends on cell 20, A (id 2) spends 20 and is therefore B's link child, C (id 3)
+    spends A's output: removing B takes A and C along, the unrelated 4 stays -/
+example : descOf [⟨1, 0, [10], [20], [], [16], 0⟩, ⟨2, 0, [20], [], [], [32], 0⟩, ⟨3, 0, [32], [], [], [48], 0⟩, ⟨4, 0, [11], [], [], [64], 0⟩] 1 = [2, 3]
+    ∧ (removeWithDesc [⟨1, 0, [10], [20], [], [16], 0⟩, ⟨2, 0, [20], [], [], [32], 0⟩, ⟨3, 0, [32], [], [], [48], 0⟩, ⟨4, 0, [11], [], [], [64], 0⟩] 1).map (·.id) = [4] := by
+  decide
+
+/-! ## NoConflict: no survivor spends or depends on what an attached transaction consumed -/
+
+/-- for every pool without a double spend (C11's invariant: `edges.inputs` is a map) and all reorg
+    arguments: after `_update_tx_pool_for_reorg` no pooled entry spends, or has as a cell dep, an
+    out-point consumed by an attached transaction -/
+theorem no_conflict_with_attached (p : Pool) (a : Args) (hnd : NoDoubleSpend p) :
+    ∀ e ∈ update p a, ∀ t ∈ a.attached, ∀ i ∈ t.spent, i ∉ e.spent ∧ i ∉ e.deps := by
+  intro e he t ht i hi
+  obtain ⟨e0, he0, _, i2, i3, _⟩ := sub_update_attached p a e he
+  have := foldl_removeCommitted_clears a.attached p hnd e0 he0 t ht i hi
+  exact ⟨i2 ▸ this.1, i3 ▸ this.2⟩
+
+/-- … and `limit_size` keeps it -/
+theorem no_conflict_with_attached_after_limit (p : Pool) (a : Args) (hnd : NoDoubleSpend p) :
+    ∀ e ∈ updateL p a, ∀ t ∈ a.attached, ∀ i ∈ t.spent, i ∉ e.spent ∧ i ∉ e.deps := by
+  intro e he t ht i hi
+  obtain ⟨e0, he0, _, i2, i3, _⟩ := sub_limitSize a (update p a) e he
+  have := no_conflict_with_attached p a hnd e0 he0 t ht i hi
+  exact ⟨i2 ▸ this.1, i3 ▸ this.2⟩
+
+/-- the m1 shape: B (1) depends on cell 20 and has a child C (3); A (2) spends 20; a block of another
+    miner commits A without B -/
+def poolM1 : Pool :=
+  [⟨1, 0, [10], [20], [], [16, 17], 0⟩, ⟨3, 0, [16], [], [], [48], 0⟩, ⟨2, 0, [20], [], [], [32], 0⟩, ⟨4, 0, [11], [], [], [64], 0⟩]
+def argsM1 : Args :=
+  { attached := [{ id := 2, spent := [20], outs := [32] }], detachedHeaders := [], detachedProposals := [], gap := [], proposed := [],
+    expired := [], live := [10, 11, 20] }
+
+/-- non-vacuity of `no_conflict_with_attached`: the code as written evicts B and its child C -/
+example : NoDoubleSpend poolM1 ∧ (reorg poolM1 argsM1).map (·.id) = [4] := by
+  refine ⟨?_, by decide⟩
+  unfold NoDoubleSpend poolM1
+  decide
+
+/-- the seeded variant C12/m1 (`remove_committed_tx` returns early when the committed transaction
+    was pooled itself) VIOLATES the clause: B stays pooled with the cell dep 20 that the attached
+    transaction consumed — and with it its child C; 20 is dead on the new chain -/
+theorem m1_skip_violates_no_conflict :
+    (reorgSkip poolM1 argsM1).map (·.id) = [1, 3, 4] ∧
+    (∃ e ∈ reorgSkip poolM1 argsM1, ∃ t ∈ argsM1.attached, ∃ i ∈ t.spent, i ∈ e.deps) ∧
+    20 ∉ newLive argsM1 := by
+  refine ⟨by decide, ⟨⟨1, 0, [10], [20], [], [16, 17], 0⟩, by decide, { id := 2, spent := [20], outs := [32] }, by decide, 20, by decide, by decide⟩, by decide⟩
+
+/-! ## the whole write-locked section: `reorg` = update, `limit_size`, re-adds -/
+
+/-- every entry after the re-adds is a surviving old entry or a detached-only transaction that was
+    admissible when its turn came (resolves against pool + new chain, fee and scripts ok, not
+    pooled, within the ancestor limit), entered at the stage of the new window -/
+theorem reorg_adds_only_admissible_detached (p : Pool) (a : Args) (e : PEnt) (he : e ∈ reorg p a) :
+    e ∈ updateL p a ∨
+    ∃ l1 t l2, retain a = l1 ++ t :: l2 ∧ Admissible a (newLive a) (readd a (newLive a) (updateL p a) l1) t ∧ e = entryOf a t :=
+  readd_prov a (newLive a) (retain a) (updateL p a) he
+
+/-- the re-adds remove nothing -/
+theorem readd_keeps_entries (p : Pool) (a : Args) (e : PEnt) (he : e ∈ updateL p a) : e ∈ reorg p a :=
+  readd_keeps a (newLive a) (retain a) (updateL p a) he
+
+/-- "no lost tx": a detached-only transaction that is admissible when its turn comes is back in the
+    pool at the stage of the new window, whatever happened to the transactions before it -/
+theorem detached_admissible_tx_is_back (p : Pool) (a : Args) (l1 : List CTx) (t : CTx) (l2 : List CTx)
+    (hr : retain a = l1 ++ t :: l2) (hA : Admissible a (newLive a) (readd a (newLive a) (updateL p a) l1) t) :
+    ∃ e ∈ reorg p a, e.id = t.id ∧ e.status = windowStage a t.id ∧ e.spent = t.spent ∧ e.deps = t.deps := by
+  refine ⟨entryOf a t, ?_, rfl, rfl, rfl, rfl⟩
+  unfold reorg; rw [hr]
+  exact readd_admissible_in_turn a (newLive a) (updateL p a) l1 t l2 hA
+
+/-- a failure of earlier detached transactions never loses a later independent one (what the seeded
+    change C12/m3 breaks): if `t` shares nothing with the surviving pool and with the detached-only
+    transactions before it, lives on the new chain, has no detached header dep and passes fee and
+    scripts, it is back -/
+theorem readd_later_independent_tx_is_back (p : Pool) (a : Args) (l1 : List CTx) (t : CTx) (l2 : List CTx)
+    (hr : retain a = l1 ++ t :: l2)
+    (hq : ∀ e ∈ updateL p a, Apart t e.id e.spent e.deps e.outs) (hl : ∀ d ∈ l1, Apart t d.id d.spent d.deps d.outs)
+    (hlive : ∀ o ∈ t.spent ++ t.deps, o ∈ newLive a) (hh : ∀ h ∈ t.hdeps, h ∉ a.detachedHeaders)
+    (hok : t.ok = true) (hmax : 1 ≤ a.maxAnc) :
+    ∃ e ∈ reorg p a, e.id = t.id ∧ e.status = windowStage a t.id ∧ e.spent = t.spent ∧ e.deps = t.deps :=
+  detached_admissible_tx_is_back p a l1 t l2 hr
+    (admissible_of_apart (apart_readd hq (by intro d hd; have := hl d hd; simpa [entryOf] using this)) hlive hh hok hmax)
+
+/-- a detached-only transaction with an input or cell dep that is dead on the new chain and created by
+    nobody around is NOT re-admitted -/
+theorem readd_conflicting_tx_not_back (p : Pool) (a : Args) (t : CTx) (o : Nat)
+    (ho : o ∈ t.spent ++ t.deps) (hdead : o ∉ newLive a)
+    (hp : ∀ x ∈ p, o ∉ x.outs ∧ x.id ≠ t.id) (hd : ∀ d ∈ retain a, o ∉ d.outs ∧ (d.id = t.id → d = t)) :
+    ∀ e ∈ reorg p a, e.id ≠ t.id := by
+  have hsubL : Sub (updateL p a) p := (sub_limitSize a _).trans (update_only_drops_or_restages p a)
+  -- nobody in any intermediate pool creates `o`
+  have hno : ∀ l1 l2, retain a = l1 ++ l2 → ∀ x ∈ readd a (newLive a) (updateL p a) l1, o ∉ x.outs := by
+    intro l1 l2 hl x hx
+    rcases readd_prov a (newLive a) l1 (updateL p a) hx with h | ⟨la, d, lb, hl1, _, rfl⟩
+    · obtain ⟨x0, hx0, _, _, _, _, i5⟩ := hsubL x h
+      rw [i5]; exact (hp x0 hx0).1
+    · have hdm : d ∈ retain a := by rw [hl, hl1]; simp
+      exact (hd d hdm).1
+  intro e he hid
+  rcases reorg_adds_only_admissible_detached p a e he with h | ⟨l1, t', l2, hr, hA, rfl⟩
+  · obtain ⟨x0, hx0, i1, _⟩ := hsubL e h
+    exact (hp x0 hx0).2 (i1 ▸ hid)
+  · have ht' : t' ∈ retain a := by rw [hr]; simp
+    have : t' = t := (hd t' ht').2 hid
+    subst this
+    exact not_admissible_of_dead ho hdead (hno l1 (t' :: l2) hr) hA
+
+/-- NoCommittedPooled for the whole section: no pooled entry is an attached transaction -/
+theorem no_committed_in_pool_after_reorg (p : Pool) (a : Args) :
+    ∀ tx ∈ a.attached, ∀ e ∈ reorg p a, e.id ≠ tx.id := by
+  intro tx htx e he
+  rcases reorg_adds_only_admissible_detached p a e he with h | ⟨l1, t, l2, hr, _, rfl⟩
+  · obtain ⟨e0, he0, i1, _⟩ := sub_limitSize a _ e h
+    rw [i1]; exact no_committed_in_pool p a tx htx e0 he0
+  · have ht : t ∈ retain a := by rw [hr]; simp
+    exact fun h => (mem_retain.mp ht).2 tx htx h.symm
+
+/-- the transactions committed on the main chain after the change: those of the old chain that were
+    not detached, and the attached ones -/
+def newCommitted (c : List Nat) (a : Args) : List Nat :=
+  (c.filter fun id => !a.detached.any (·.id == id)) ++ a.attached.map (·.id)
+
+/-- NoCommittedPooled as an invariant of chain changes: if no pooled transaction was committed on the
+    old main chain, none is committed on the new one -/
+theorem no_committed_pooled_step (p : Pool) (a : Args) (c : List Nat) (h : ∀ e ∈ p, e.id ∉ c) :
+    ∀ e ∈ reorg p a, e.id ∉ newCommitted c a := by
+  intro e he hin
+  unfold newCommitted at hin
+  rcases List.mem_append.mp hin with h1 | h1
+  · obtain ⟨hc, hnd⟩ := List.mem_filter.mp h1
+    rcases reorg_adds_only_admissible_detached p a e he with h2 | ⟨l1, t, l2, hr, _, rfl⟩
+    · obtain ⟨e0, he0, i1, _⟩ := ((sub_limitSize a _).trans (update_only_drops_or_restages p a)) e h2
+      exact h e0 he0 (i1 ▸ hc)
+    · have ht : t ∈ retain a := by rw [hr]; simp
+      have : a.detached.any (·.id == (entryOf a t).id) = true :=
+        List.any_eq_true.mpr ⟨t, (mem_retain.mp ht).1, by simp [entryOf]⟩
+      rw [this] at hnd; simp at hnd
+  · obtain ⟨tx, htx, hid⟩ := List.mem_map.mp h1
+    exact no_committed_in_pool_after_reorg p a tx htx e he hid.symm
+
+/-- no pooled entry depends on a detached header — after the re-adds too -/
+theorem no_detached_header_dep_after_reorg (p : Pool) (a : Args) :
+    ∀ e ∈ reorg p a, ∀ h ∈ e.hdeps, h ∉ a.detachedHeaders := by
+  intro e he h hh
+  rcases reorg_adds_only_admissible_detached p a e he with h1 | ⟨l1, t, l2, _, hA, rfl⟩
+  · obtain ⟨e0, he0, _, _, _, i4, _⟩ := sub_limitSize a _ e h1
+    exact no_detached_header_dep p a e0 he0 h (i4 ▸ hh)
+  · exact resolves_hdeps hA.1 h hh
+
+/-- NoConflict for the whole section, re-added transactions included, on a well-formed chain change:
+    what an attached transaction consumes is dead at the new tip and was not created by a transaction
+    that is off the new chain (a pooled one that is not attached, or a detached-only one) -/
+theorem no_conflict_after_reorg (p : Pool) (a : Args) (hnd : NoDoubleSpend p)
+    (hchain : ∀ y ∈ a.attached, ∀ i ∈ y.spent, i ∉ newLive a ∧ (∀ d ∈ retain a, i ∉ d.outs) ∧
+      (∀ x ∈ p, (∀ y' ∈ a.attached, y'.id ≠ x.id) → i ∉ x.outs)) :
+    ∀ e ∈ reorg p a, ∀ t ∈ a.attached, ∀ i ∈ t.spent, i ∉ e.spent ∧ i ∉ e.deps := by
+  intro e he t ht i hi
+  rcases reorg_adds_only_admissible_detached p a e he with h | ⟨l1, t', l2, hr, hA, rfl⟩
+  · exact no_conflict_with_attached_after_limit p a hnd e h t ht i hi
+  · have key : i ∉ t'.spent ++ t'.deps := by
+      intro hmem
+      obtain ⟨_, h2⟩ := cellLive_cases (resolves_cells hA.1 i hmem)
+      obtain ⟨hdead, hret, hpool⟩ := hchain t ht i hi
+      rcases h2 with ⟨x, hx, hox⟩ | h2
+      · rcases readd_prov a (newLive a) l1 (updateL p a) hx with hxu | ⟨la, d, lb, hl1, _, rfl⟩
+        · obtain ⟨x1, hx1, j1, _, _, _, j5⟩ := sub_limitSize a _ x hxu
+          obtain ⟨x0, hx0, i1, _, _, _, i5⟩ := update_only_drops_or_restages p a x1 hx1
+          refine hpool x0 hx0 ?_ (i5 ▸ j5 ▸ hox)
+          intro y' hy' hid
+          exact no_committed_in_pool p a y' hy' x1 hx1 (i1.trans hid.symm)
+        · have hdm : d ∈ retain a := by rw [hr, hl1]; simp
+          exact hret d hdm hox
+      · exact hdead h2
+    exact ⟨fun h => key (List.mem_append.mpr (Or.inl h)), fun h => key (List.mem_append.mpr (Or.inr h))⟩
+
+/-! ## InputsResolvable -/
+
+/-- STRONGEST TRUE FORM of "no dead or unknown input" for the code as written. For every pool whose
+    inputs and cell deps were live on the old chain or created in the pool, without a double spend,
+    and whose entries agree with the attached transactions of the same id: after the whole section
+    every input and every cell dep of every pooled entry is live on the NEW chain, or created by a
+    pooled entry, or an output of a transaction of a DETACHED block. (The last case is the known finding
+    `input-of-detached-parent-not-readmitted`: `child_of_unreadmitted_parent_survives_reorg` shows it
+    happens.) -/
+theorem inputs_resolvable_up_to_detached (p : Pool) (a : Args)
+    (hres : Resolvable (· ∈ a.live) p) (hnd : NoDoubleSpend p)
+    (hsame : ∀ t ∈ a.attached, ∀ x ∈ p, x.id = t.id → x.outs = t.outs) :
+    ∀ e ∈ reorg p a, ∀ o ∈ e.spent ++ e.deps,
+      o ∈ newLive a ∨ (∃ d ∈ a.detached, o ∈ d.outs) ∨ ∃ x ∈ reorg p a, o ∈ x.outs := by
+  -- through the update with everything the chain change accounts for
+  have h0 : Resolvable (Excused a) p := by
+    intro e he o ho
+    exact (hres e he o ho).imp excused_of_live id
+  have h1 : Resolvable (Excused a) (updateL p a) := by
+    apply resolvable_limitSize
+    apply resolvable_update p a h0
+    intro t ht x hx hid o ho
+    exact excused_of_attached_out ht (hsame t ht x hx hid ▸ ho)
+  -- no survivor uses what an attached transaction consumed
+  have h2 : Resolvable (fun o => o ∈ newLive a ∨ ∃ d ∈ a.detached, o ∈ d.outs) (updateL p a) := by
+    intro e he o ho
+    rcases h1 e he o ho with (h | h | ⟨y, hy, hoy⟩) | h
+    · exact Or.inl (Or.inl h)
+    · exact Or.inl (Or.inr h)
+    · exfalso
+      have := no_conflict_with_attached_after_limit p a hnd e he y hy o hoy
+      rcases List.mem_append.mp ho with h | h
+      · exact this.1 h
+      · exact this.2 h
+    · exact Or.inr h
+  have h3 := resolvable_readd a (newLive a) (retain a) (updateL p a) (P := fun o => o ∈ newLive a ∨ ∃ d ∈ a.detached, o ∈ d.outs)
+    (fun o ho => Or.inl ho) h2
+  intro e he o ho
+  rcases h3 e he o ho with (h | h) | h
+  · exact Or.inl h
+  · exact Or.inr (Or.inl h)
+  · exact Or.inr (Or.inr h)
+
+/-- InputsResolvable in full when the chain only grows (another miner's block or the node's own):
+    every input and cell dep of every pooled entry is live on the new chain or created in the pool -/
+theorem inputs_resolvable_on_extension (p : Pool) (a : Args) (hext : a.detached = [])
+    (hres : Resolvable (· ∈ a.live) p) (hnd : NoDoubleSpend p)
+    (hsame : ∀ t ∈ a.attached, ∀ x ∈ p, x.id = t.id → x.outs = t.outs) :
+    Resolvable (· ∈ newLive a) (reorg p a) := by
+  intro e he o ho
+  rcases inputs_resolvable_up_to_detached p a hres hnd hsame e he o ho with h | ⟨d, hd, _⟩ | h
+  · exact Or.inl h
+  · rw [hext] at hd; simp at hd
+  · exact Or.inr h
+
+/-- the clause is PRESERVED by the expiry step, by `limit_size` for every eviction order, and by the
+    re-adds: once it holds after the conflict phases it holds at the end -/
+theorem expiry_limit_readd_keep_inputs_resolvable (a : Args) (live : List Nat) (q : Pool) (ex : List Nat) (l : List CTx)
+    (h : Resolvable (· ∈ live) q) :
+    Resolvable (· ∈ live) (readd a live (limitSize a (ex.foldl removeWithDesc q)) l) :=
+  resolvable_readd a live l _ (fun _ ho => ho)
+    (resolvable_limitSize a _ (resolvable_foldl_removeWithDesc (fun x : Nat => x) ex q h))
+
+/-- non-vacuity of `inputs_resolvable_on_extension`: the m1 history on the code as written -/
+example : Resolvable (· ∈ argsM1.live) poolM1 ∧ Resolvable (· ∈ newLive argsM1) (reorg poolM1 argsM1) := by
+  constructor
+  · unfold Resolvable poolM1 argsM1; decide
+  · unfold Resolvable; decide
+
+/-- … which the seeded variant C12/m1 breaks: B's cell dep 20 is neither live nor created in the pool -/
+theorem m1_skip_violates_inputs_resolvable : ¬ Resolvable (· ∈ newLive argsM1) (reorgSkip poolM1 argsM1) := by
+  unfold Resolvable; decide
+
+/-- FINDING `input-of-detached-parent-not-readmitted` on the whole section: tx 1 (header dep on block 5)
+    was committed on the abandoned branch, block 5 is detached, so 1 is not re-admitted; its pooled child
+    2 spends 1's output 16, which is neither live on the new chain nor created in the pool — and stays -/
+theorem child_of_unreadmitted_parent_survives_reorg :
+    let a : Args := { attached := [], detachedHeaders := [5, 6], detachedProposals := [], gap := [], proposed := [], expired := [],
+                      detached := [{ id := 1, spent := [10], hdeps := [5], outs := [16] }], live := [16] }
+    (reorg [⟨2, 0, [16], [], [], [32], 0⟩] a).map (·.id) = [2] ∧ 16 ∉ newLive a ∧ 10 ∈ newLive a := by decide
+
+/-- … while a detached parent that IS admissible comes back and the child's input is created in the pool -/
+example :
+    let a : Args := { attached := [], detachedHeaders := [5, 6], detachedProposals := [], gap := [], proposed := [], expired := [],
+                      detached := [{ id := 1, spent := [10], outs := [16] }], live := [16] }
+    (reorg [⟨2, 0, [16], [], [], [32], 0⟩] a).map (·.id) = [2, 1] := by decide
+
+
+/-! ## `limit_size` -/
+
+/-- `limit_size` ends with the pool under the size limit, for every eviction preference -/
+theorem limit_size_under_limit (a : Args) (p : Pool) : totalSize (limitSize a p) ≤ a.maxSize :=
+  limitLoop_under a.maxSize a.evictPref (p.length + 1) p (by omega)
+
+/-- … and only removes entries -/
+theorem limit_size_only_removes (a : Args) (p : Pool) (e : PEnt) (h : e ∈ limitSize a p) : e ∈ p :=
+  mem_of_mem_limitLoop _ _ _ _ h
+
+/-- non-vacuity: three entries of size 300 under a limit of 700; the pending one with a descendant is the
+    preferred victim and takes its child along -/
+example : (limitSize { attached := [], detachedHeaders := [], detachedProposals := [], gap := [], proposed := [], expired := [], maxSize := 700, evictPref := [1] }
+    [⟨1, 0, [10], [], [], [16], 300⟩, ⟨2, 0, [16], [], [], [32], 300⟩, ⟨3, 2, [11], [], [], [48], 300⟩]).map (·.id) = [3] := by decide
+
+/-! ## stage = proposal window -/
+
+/-- STRONGEST TRUE FORM of "stage matches the window" for the code as written. For every pool whose
+    stages are 0/1/2, equal for equal ids, and whose proposed entries are proposed in the new window
+    or among the detached proposal ids (what `ProposalTable::finalize` reports: old proposed set minus
+    new): after the whole section every pooled entry is at the stage the new window gives its id — or
+    it is a GAP entry whose id is in neither part of the new window (the known finding
+    `stage-gap-outside-window`; `gap_stuck_outside_window` shows it happens). -/
+theorem stage_matches_window_partial (p : Pool) (a : Args)
+    (hsame : ∀ x ∈ p, ∀ y ∈ p, x.id = y.id → x.status = y.status)
+    (hle : ∀ x ∈ p, x.status ≤ 2)
+    (hprop : ∀ x ∈ p, x.status = 2 → x.id ∈ a.proposed ∨ x.id ∈ a.detachedProposals) :
+    ∀ e ∈ reorg p a, e.status = windowStage a e.id ∨ (e.status = 1 ∧ e.id ∉ a.proposed ∧ e.id ∉ a.gap) := by
+  intro e he
+  rcases reorg_adds_only_admissible_detached p a e he with h | ⟨_, t, _, _, _, rfl⟩
+  · have h1 : e ∈ update p a := mem_of_mem_limitLoop _ _ _ _ h
+    unfold update at h1
+    have h2 := mem_of_mem_foldl_removeWithDesc _ _ h1
+    have hin : ∀ x ∈ resolveHeaderDeps (a.attached.foldl removeCommitted p) a.detachedHeaders, x ∈ p :=
+      fun x hx => mem_of_mem_conflict_phases p a hx
+    have h0 : StageInv a [] (resolveHeaderDeps (a.attached.foldl removeCommitted p) a.detachedHeaders) :=
+      ⟨fun x hx y hy => hsame x (hin x hx) y (hin y hy), fun x hx => hle x (hin x hx),
+        fun x hx => hprop x (hin x hx), fun x _ hd => by simp at hd⟩
+    have h3 := stageInv_foldl_detachProposal a.detachedProposals [] _ h0
+    rw [List.append_nil] at h3
+    exact stage_after_moves h3 e h2
+  · exact Or.inl rfl
+
+/-- non-vacuity: 1 proposed and still proposed, 2 proposed with a detached proposal (back to pending, then
+    gap by the new window), 3 pending and newly proposed, 4 gap and now proposed -/
+example :
+    let a : Args := { attached := [], detachedHeaders := [], detachedProposals := [2], gap := [2], proposed := [1, 3, 4], expired := [] }
+    (reorg [⟨1, 2, [10], [], [], [16], 0⟩, ⟨2, 2, [11], [], [], [32], 0⟩, ⟨3, 0, [12], [], [], [48], 0⟩, ⟨4, 1, [13], [], [], [64], 0⟩] a).map
+      (fun e => (e.id, e.status)) = [(1, 2), (2, 1), (3, 2), (4, 2)] := by decide
 
 end CkbVerif.C12
